@@ -91,6 +91,10 @@ def check(run: Run) -> None:
     ok = False
     if len(loops) == 1:
         it = strip_sites(fa.term_of(loops[0].iter, fa.cfg.node_of(loops[0])))
+        for _peel in range(4):
+            # a comprehension / generator over one ordered source keeps the order of the source
+            if it[0] == "comp" and len(it[3]) == 1:
+                it = it[3][0][0]
         ok = it[0] in ("list", "tuple") and it[1] == (("param", pc.pos_params[1]), ("param", pc.pos_params[3]))  # an ordered display
     run.check(ok, "C09.R1", pc, loops[0] if loops else pc.node, "callbacks are looked up on [object type, method] in that order", "the class-level callback is not consulted before the method-level one (or the lookup objects are not the object type and the method)", "for base_obj in [obj_type, call_method]")
     for c in calls_in(pc):
@@ -386,6 +390,14 @@ def _threading(run: Run, ctx, eff, m, fi: FuncInfo, c: ast.Call, kind: str, help
                 run.check(ok_cr, rule, caller, st2, "the (possibly rewritten) node is returned to visit_Call", f"the node returned by the {kind} is not what {caller.name} returns")
         elif kind.startswith("method") or kind.startswith("function"):
             ok_n = isinstance(passed, ast.Name) and passed.id in n_names
+            if not ok_n and isinstance(passed, ast.Name):
+                # unprocessed = node_var; stream, node_var = processor(stream, unprocessed): a local that names the
+                # value the node variable holds when the call is made
+                try:
+                    cur_ = strip_sites(fa.term_of(ast.copy_location(ast.Name(id=n_name, ctx=ast.Load()), passed), fa.cfg.node_of(st)))
+                    ok_n = cur_[0] != "top" and cur_ == strip_sites(fa.term_of(passed, fa.cfg.node_of(st)))
+                except AnalysisError:
+                    ok_n = False
             run.check(ok_n, rule, fi, st, "the callback receives the current node and its result replaces it", f"the {kind} receives '{ast.unparse(passed)}' but its result is bound to '{n_name}': a rewrite returned by an earlier callback is not what the next one sees / what is emitted")
     # the function returns that node
     rets = [s for s, _n in fa.returns()]
